@@ -166,6 +166,19 @@ def provider(files, lang, base_rel):
     return get
 
 
+def provider_os(lang, base_given):
+    """reference-side file resolution through the operating system: an include path is joined to the directory part of the
+    path under which the including file was opened, and the OS resolves it (symbolic links, '..' after a link)"""
+    def get(relpath):
+        given = os.path.join(os.path.dirname(base_given), relpath)
+        if not os.path.isfile(given):
+            raise RX.RefError("included file %s does not exist" % given)
+        with open(given) as fh:
+            text = fh.read()
+        return given, lang.real_tokens_pos(text), provider_os(lang, given)
+    return get
+
+
 def load_in(bb, root, main, cwd_kind, style, scratch_cwd):
     old = os.getcwd()
     try:
@@ -336,6 +349,17 @@ SEQUENCES = {
                                         ("load", "abs:main.xbb"), ("load", "main.xbb")],
     "arity_changes_between_loads": [("write", "inc.xbb", INC_A), ("write", "main.xbb", MAIN_INC), ("chdir", "."), ("load", "main.xbb"), ("write", "inc.xbb", INC_3), ("load", "main.xbb"),
                                     ("write", "inc.xbb", INC_B), ("load", "main.xbb")],
+    # '..' after a directory that is a symbolic link: the operating system goes to the parent of the link's *target*
+    "dotdot_after_symlinked_directory": [("write", "real/proj/main.xbb", 'name main\nversion 1.0\ninclude "../lib/inc.xbb"\n\ninc | [4, 9]\n'), ("write", "real/lib/inc.xbb", INC_A),
+                                         ("write", "lib/inc.xbb", INC_B), ("symlink", "proj", "real/proj"), ("chdir", "."), ("load", "proj/main.xbb"), ("load", "abs:proj/main.xbb"),
+                                         ("load", "proj/../proj/main.xbb"), ("write", "job.xbb", 'name decoy\nversion 1.0\n\nVac | 7\n'), ("write", "real/job.xbb", MAIN_LIB.replace("lib/inc", "lib/inc")),
+                                         ("load", "proj/../job.xbb"), ("chdir", "proj"), ("load", "main.xbb"), ("load", "../job.xbb")],
+    "include_through_symlinked_directory": [("write", "v1/ops.xbb", INC_A), ("write", "v2/ops.xbb", INC_B), ("write", "ops.xbb", INC_3), ("symlink", "current", "v2"),
+                                            ("write", "main.xbb", 'name main\nversion 1.0\ninclude "current/ops.xbb"\n\nops | [1, 2]\n'.replace("ops |", "inc |")),
+                                            ("write", "main2.xbb", 'name main\nversion 1.0\ninclude "current/../v1/ops.xbb"\n\ninc | [3, 5]\n'),
+                                            ("write", "v2/sub/x.xbb", "name x\nversion 1.0\n\nVac | 0\n"), ("symlink", "deep", "v2/sub"),
+                                            ("write", "main3.xbb", 'name main\nversion 1.0\ninclude "deep/../ops.xbb"\n\ninc | [3, 5]\n'),
+                                            ("chdir", "."), ("load", "main.xbb"), ("load", "main2.xbb"), ("load", "main3.xbb"), ("load", "abs:main3.xbb")],
     "template_keywords_change_between_loads": [("write", "tpl.xbb", TPL_1), ("write", "main.xbb", MAIN_TPL), ("chdir", "."), ("load", "main.xbb"), ("write", "tpl.xbb", TPL_2), ("load", "main.xbb"),
                                                ("write", "tpl.xbb", TPL_1), ("load", "abs:main.xbb")],
 }
@@ -359,17 +383,20 @@ def sequence_case(name, w=None):
                 write_tree({st[1]: st[2]}, root)
             elif st[0] == "chdir":
                 os.chdir(os.path.join(root, st[1]))
+            elif st[0] == "symlink":
+                os.makedirs(os.path.dirname(os.path.join(root, st[1])), exist_ok=True)
+                os.symlink(st[2], os.path.join(root, st[1]), target_is_directory=True)
             else:
                 nload += 1
                 path = st[1]
                 if path.startswith("abs:"):
-                    rel = path[4:]
-                    arg = os.path.join(root, rel)
+                    arg = os.path.join(root, path[4:])
                 else:
-                    rel = os.path.normpath(os.path.relpath(os.path.join(os.getcwd(), path), root))
                     arg = path
-                toks = lg.real_tokens_pos(files[rel])
-                cases = RI.run_all(lambda forks: RI.Interp(toks, T.PyAlg, lv.leaf, False, params=None, files=provider(files, lg, rel)))
+                given = os.path.join(os.getcwd(), arg)
+                with open(given) as fh:
+                    toks = lg.real_tokens_pos(fh.read())
+                cases = RI.run_all(lambda forks: RI.Interp(toks, T.PyAlg, lv.leaf, False, params=None, files=provider_os(lg, given)))
                 routcome = cases[0][1]
                 aux._VAR.clear()
                 aux._PARAMS.clear()
